@@ -594,3 +594,123 @@ func c15Panics(c *Ctx, scope []*ssa.Function, completeOK, suitesOK, versionOK bo
 		})
 	}
 }
+
+// c15Phase: readRecord hands a record's payload on (handshake buffer, application input, cipher change) only when
+// the record type is the one the caller asked for; the single exception is a client with renegotiation enabled,
+// which buffers a HelloRequest that arrives while it waits for application data.
+func c15Phase(c *Ctx) {
+	rule := "G-C15-phase"
+	f := c.Fn("gmtls", "(*Conn).readRecord")
+	if f == nil {
+		c.Missing(rule, "gmtls.(*Conn).readRecord", "method", "not found")
+		return
+	}
+	var typ, want ssa.Value
+	for _, p := range f.Params {
+		if p.Name() == "want" {
+			want = p
+		}
+	}
+	// typ := recordType(b.data[0])
+	instrsOf(f, func(_ *ssa.BasicBlock, in ssa.Instruction) {
+		if cv, ok := in.(*ssa.ChangeType); ok && strings.HasSuffix(cv.Type().String(), "gmtls.recordType") && typ == nil {
+			typ = cv
+		}
+		if cv, ok := in.(*ssa.Convert); ok && strings.HasSuffix(cv.Type().String(), "gmtls.recordType") && typ == nil {
+			typ = cv
+		}
+	})
+	if typ == nil || want == nil {
+		c.Undecided(rule, fname(f), "record type and wanted type", "not identified", f.Pos())
+		return
+	}
+	// edges on which typ == want is known
+	match := map[edge]bool{}
+	mismatch := map[edge]bool{}
+	for _, ifi := range ifsOf(f) {
+		bo, ok := ifi.Cond.(*ssa.BinOp)
+		if !ok || !((bo.X == typ && bo.Y == want) || (bo.X == want && bo.Y == typ)) {
+			continue
+		}
+		b := ifi.Block()
+		switch bo.Op {
+		case token.NEQ:
+			mismatch[edge{b, b.Succs[0]}], match[edge{b, b.Succs[1]}] = true, true
+		case token.EQL:
+			match[edge{b, b.Succs[0]}], mismatch[edge{b, b.Succs[1]}] = true, true
+		}
+	}
+	type sink struct {
+		in   ssa.Instruction
+		name string
+	}
+	var sinks []sink
+	instrsOf(f, func(_ *ssa.BasicBlock, in ssa.Instruction) {
+		switch x := in.(type) {
+		case *ssa.Store:
+			if fa, ok := x.Addr.(*ssa.FieldAddr); ok && fieldName(fa.X.Type(), fa.Field) == "input" {
+				sinks = append(sinks, sink{x, "application data handed to Read"})
+			}
+		case *ssa.Call:
+			if sc := x.Call.StaticCallee(); sc != nil && sc.String() == "(*bytes.Buffer).Write" {
+				sinks = append(sinks, sink{x, "handshake bytes buffered"})
+			}
+			if calleeNamed(x, "changeCipherSpec") {
+				sinks = append(sinks, sink{x, "cipher change"})
+			}
+		}
+	})
+	if len(sinks) != 3 || len(match) < 3 {
+		c.Undecided(rule, fname(f), "delivery points and type tests", fmt.Sprintf("%d delivery points, %d `typ == want` edges", len(sinks), len(match)), f.Pos())
+		return
+	}
+	// the renegotiation exception: edges where c.isClient is true
+	isClientEdge := map[edge]bool{}
+	for _, ifi := range ifsOf(f) {
+		if ld, ok := ifi.Cond.(*ssa.UnOp); ok && ld.Op == token.MUL {
+			if fa, ok := ld.X.(*ssa.FieldAddr); ok && fieldName(fa.X.Type(), fa.Field) == "isClient" {
+				isClientEdge[edge{ifi.Block(), ifi.Block().Succs[0]}] = true
+			}
+		}
+	}
+	for _, s := range sinks {
+		c.Evals++
+		// with every `typ == want` edge removed, the delivery must be unreachable from any `typ != want` edge ...
+		cut := map[edge]bool{}
+		for e := range match {
+			cut[e] = true
+		}
+		allowClient := s.name == "handshake bytes buffered"
+		if allowClient {
+			for e := range isClientEdge {
+				cut[e] = true // ... except through the client-renegotiation test
+			}
+		}
+		reachable := false
+		for e := range mismatch {
+			if reach([]*ssa.BasicBlock{e.to}, cut)[s.in.Block()] {
+				reachable = true
+			}
+		}
+		// ... and must not be reachable at all without passing a type test of its own case
+		var caseTests []edge
+		for e := range match {
+			if reach([]*ssa.BasicBlock{e.to}, nil)[s.in.Block()] {
+				caseTests = append(caseTests, e)
+			}
+		}
+		guarded := len(caseTests) > 0 || allowClient
+		if guarded && !allowClient {
+			// from the entry, cutting the match edges, the sink is unreachable
+			if reach([]*ssa.BasicBlock{f.Blocks[0]}, cut)[s.in.Block()] {
+				guarded = false
+			}
+		}
+		if allowClient {
+			if reach([]*ssa.BasicBlock{f.Blocks[0]}, cut)[s.in.Block()] {
+				guarded = false
+			}
+		}
+		c.Check(!reachable && guarded, rule, fname(f), s.name+" only for the record type the caller is waiting for", "", "a record of a type the caller is not waiting for (e.g. a handshake record where ChangeCipherSpec is due) can reach this delivery point", s.in.Pos())
+	}
+}
